@@ -363,8 +363,9 @@ pub fn crafted(rng: &mut Rng, codecs: &[u8], small_only: bool) -> Vec<(String, S
             add("two-cycle", format!("{cn}: two leaf directories pointing at each other"), &a, rng);
         }
         // pointer chains of various lengths (legal but deep: Err or Ok are both fine)
-        for links in [3usize, 5, 9, 17, 100, 1000, 100_000] {
-            if links == 100_000 && codec != R::C_NONE || small_only && links > 100 {
+        for links in [3usize, 5, 9, 17, 100, 1000, 30_000, 60_000, 90_000, 100_000] {
+            // the very long chains only uncompressed (assembly cost); 100 000 exceeds the visit budget on purpose
+            if links >= 30_000 && codec != R::C_NONE || small_only && links > 100 {
                 continue;
             }
             let mut a = base_archive(codec, MDir::default());
